@@ -285,6 +285,8 @@ func run(c *hlib.Ctx) {
 		runDcIdx(c)
 	}
 	runDc(c)
+	runConj(c)
+	runC2F(c)
 }
 
 // ---- marching cubes: vertex set = sign-changing lattice edges (mc_vertex_iff_sign_change),
@@ -658,6 +660,8 @@ func shift(t *csg, dx, dy float64) *csg {
 		r.p = []float64{t.p[0], t.p[1], t.p[2] + d}
 	case "vox":
 		r.p = []float64{t.p[0] + dx, t.p[1] + dy, t.p[2], t.p[3]}
+	case "plane":
+		r.p = []float64{t.p[0], t.p[1], t.p[2], t.p[3] + t.p[0]*dx + t.p[1]*dy}
 	default:
 		r.a, r.b = shift(t.a, dx, dy), shift(t.b, dx, dy)
 	}
@@ -676,6 +680,22 @@ type halfSolid struct {
 func (h halfSolid) Min() model3d.Coord3D { return model3d.XYZ(-1e9, -1e9, -1e9) }
 func (h halfSolid) Max() model3d.Coord3D { return model3d.XYZ(1e9, 1e9, 1e9) }
 func (h halfSolid) Contains(c model3d.Coord3D) bool {
+	v := c.Array()[h.axis]
+	if h.up {
+		return v >= h.t
+	}
+	return v <= h.t
+}
+
+type halfSolid2 struct {
+	axis int
+	up   bool
+	t    float64
+}
+
+func (h halfSolid2) Min() model2d.Coord { return model2d.XY(-1e9, -1e9) }
+func (h halfSolid2) Max() model2d.Coord { return model2d.XY(1e9, 1e9) }
+func (h halfSolid2) Contains(c model2d.Coord) bool {
 	v := c.Array()[h.axis]
 	if h.up {
 		return v >= h.t
@@ -735,6 +755,34 @@ func runBisect(c *hlib.Ctx) {
 		count := 1 + c.Rng.Intn(40)
 		if c.Rng.Intn(3) == 0 {
 			count = 32
+		}
+		if axis < 2 && c.Rng.Intn(4) == 0 {
+			// the 2-D twin (model2d/surface_estimator.go, generated from the same template): same points
+			// without the third coordinate
+			q1, q2 := model2d.XY(p1.X, p1.Y), model2d.XY(p2.X, p2.Y)
+			s2 := halfSolid2{axis, up, thr}
+			est2 := &model2d.SolidSurfaceEstimator{Solid: s2, BisectCount: count}
+			which := []string{"bisect", "interior"}[c.Rng.Intn(2)]
+			upi := 0
+			if up {
+				upi = 1
+			}
+			op := fmt.Sprintf("c02 bis2 %s %d %d %d %s %s %s %s %s", which, count, axis, upi, hlib.Hex(thr),
+				hlib.Hex(q1.X), hlib.Hex(q1.Y), hlib.Hex(q2.X), hlib.Hex(q2.Y))
+			c.Stat("c02.bis2."+which, 1)
+			c.EmitSite(op, hlib.Guard(func() string {
+				if which == "bisect" {
+					r := est2.Bisect(q1, q2)
+					return hlib.Hex(r.X) + " " + hlib.Hex(r.Y)
+				}
+				r := est2.BisectInterior(q1, q2)
+				in := "0"
+				if s2.Contains(r) {
+					in = "1"
+				}
+				return hlib.Hex(r.X) + " " + hlib.Hex(r.Y) + " in=" + in
+			}), "corr:c02 bis2/"+which)
+			continue
 		}
 		est := &model3d.SolidSurfaceEstimator{Solid: s, BisectCount: count}
 		which := []string{"bisect", "interior"}[c.Rng.Intn(2)]
